@@ -61,7 +61,26 @@ class TwoPos(param.Parameterized):
         super().__init__(anyv=anyv, s=s, i=i, **params)
 
 
-C20_CLASSES = {"Plain": Plain, "Pos": Pos, "PosNoKw": PosNoKw, "TwoPos": TwoPos, "Sub": Sub}
+class KwOnly(param.Parameterized):
+    """a positional argument and a keyword-only one (whose default is the default of the Parameter) + **params"""
+    s = param.String(default="d")
+    num = param.Number(default=1.0)
+    i = param.Integer(default=2)
+
+    def __init__(self, s, *, num=1.0, **params):
+        super().__init__(s=s, num=num, **params)
+
+
+class KwOnly2(param.Parameterized):
+    """only keyword-only arguments besides **params"""
+    s = param.String(default="d")
+    num = param.Number(default=1.0)
+
+    def __init__(self, *, num=1.0, **params):
+        super().__init__(num=num, **params)
+
+
+C20_CLASSES = {"Plain": Plain, "Pos": Pos, "PosNoKw": PosNoKw, "TwoPos": TwoPos, "Sub": Sub, "KwOnly": KwOnly, "KwOnly2": KwOnly2}
 
 
 # ---------------------------------------------------------------------------
